@@ -16,6 +16,7 @@ import os, re, sys
 
 sys.path.insert(0, os.path.dirname(os.path.abspath(__file__)))
 import rs2lean_analyze as ra
+import rs2lean_ints as ints
 from rs2lean_analyze import Unsupported, bad, Tok, find_seq, matching, top_level_positions, parse_enum, int_of
 
 EXTRA_KEYWORDS = {'repeat', 'next', 'stop', 'open', 'end', 'prefix', 'infix', 'from', 'at', 'show', 'have', 'fun', 'do', 'then'}
@@ -96,13 +97,23 @@ class Parser(ra.Parser):
         return l
 
     def p_mul(self, ns):
-        l = self.p_unary(ns)
+        l = self.p_cast(ns)
         while self.peek().kind == 'op' and self.peek().text in ('*', '/', '%'):
             t = self.next()
             if t.text != '*':
                 bad('operator `%s`' % t.text, t.line)
-            l = ('bin', '*', l, self.p_unary(ns), t.line)
+            l = ('bin', '*', l, self.p_cast(ns), t.line)
         return l
+
+    def p_cast(self, ns):
+        """`e as T`: binds tighter than `*` `/` `%`, looser than the prefix operators (`*b as char` is `(*b) as char`)"""
+        e = self.p_unary(ns)
+        while self.at('as'):
+            ln = self.next().line
+            if self.peek().kind != 'id' or self.peek(1).text in ('::', '<'):
+                bad('`as` cast to something other than a plain type name', ln)
+            e = ('cast', e, self.ident(), ln)
+        return e
 
     def p_unary(self, ns):
         t = self.peek()
@@ -120,11 +131,54 @@ class Parser(ra.Parser):
         if t.kind == 'op' and t.text == '-':
             bad('unary minus', t.line)
         if t.kind == 'op' and t.text in ('|', '||'):
+            return self.closure()
+        return self.p_postfix(ns)
+
+    def closure(self):
+        """`|x| e` with a plain identifier (for `opt.map_or(d, |x| e)`)"""
+        t = self.next()
+        if t.text != '|' or self.peek().kind != 'id' or self.peek(1).text != '|':
             bad('closure', t.line)
-        e = self.p_postfix(ns)
-        if self.at('as'):
-            bad('`as` cast', self.peek().line)
-        return e
+        x = self.ident()
+        self.next()
+        if self.at('{'):
+            bad('closure with a block body', t.line)
+        return ('closure', x, self.expr(), t.line)
+
+    def p_cmp(self, ns):
+        l = self.p_bitor(ns)
+        is_cmp = lambda: (self.peek().text in ('==', '!=', '<', '<=', '>', '>=') and self.peek().kind == 'op'
+                          and not ((self.at('<', '<=') or self.at('>', '>=')) and self.peek(1).kind == 'op'))    # `<<=`, `>>=`
+        if is_cmp():
+            t = self.next()
+            r = self.p_bitor(ns)
+            if is_cmp():
+                bad('chained comparison', self.peek().line)
+            return ('bin', t.text, l, r, t.line)
+        return l
+
+    # `<<` / `>>` reach the parser as two tokens (`<<=` as `<` `<=`): a level between `&` and `+`, as in Rust
+    def p_bitxor(self, ns):
+        l = self.p_bitand(ns)
+        while self.at('^'):
+            ln = self.next().line
+            l = ('bin', '^', l, self.p_bitand(ns), ln)
+        return l
+
+    def p_bitand(self, ns):
+        l = self.p_shift(ns)
+        while self.at('&'):
+            ln = self.next().line
+            l = ('bin', '&', l, self.p_shift(ns), ln)
+        return l
+
+    def p_shift(self, ns):
+        l = self.p_add(ns)
+        while (self.at('<', '<') or self.at('>', '>')) and self.peek().kind == 'op' and self.peek(1).kind == 'op':
+            t = self.next()
+            self.next()
+            l = ('bin', t.text * 2, l, self.p_add(ns), t.line)
+        return l
 
     def p_postfix(self, ns):
         e = self.p_primary(ns)
@@ -162,6 +216,27 @@ class Parser(ra.Parser):
         if t.kind == 'bchr':
             self.next()
             return ('byte', byte_of(t), t.line)
+        if t.kind == 'int':
+            m = re.search(r'(usize|u8|u16|u32|u64|i32|i64|isize)$', t.text)
+            if m:                       # a suffixed literal keeps its type: ('tint', value, type)
+                self.next()
+                return ('tint', int_of(t), m.group(1), t.line)
+        if t.kind == 'id' and t.text == 'matches' and self.peek(1).text == '!' and self.peek(1).kind == 'op':
+            self.next()
+            self.next()
+            self.expect('(')
+            scrut = self.expr()
+            self.expect(',')
+            pats = [self.pattern()]
+            while self.at('|'):
+                self.next()
+                pats.append(self.pattern())
+            if self.at('if'):
+                bad('`matches!` with a guard', self.peek().line)
+            if self.at(','):
+                self.next()
+            self.expect(')')
+            return ('matches', scrut, pats, t.line)
         if t.kind == 'id' and t.text == 'match':
             self.next()
             scrut = self.expr(no_struct=True)
@@ -237,14 +312,30 @@ class Parser(ra.Parser):
             self.next()
             return ('return', self.expr(), t.line)
         e = self.expr()
-        nt = self.peek()
-        if nt.kind == 'op' and nt.text in ('=', '+=', '&=', '|=', '-=', '*=', '/=', '%=', '^='):
-            self.next()
-            if nt.text not in ('=', '+='):
-                bad('compound assignment `%s`' % nt.text, nt.line)
+        op = self.assign_op()
+        if op:
             r = self.expr()
-            return ('assign', e, nt.text, r, t.line)
+            return ('assign', e, op, r, t.line)
         return ('expr', e, t.line)
+
+    ASSIGN_OPS = ('=', '+=', '-=', '*=', '|=', '&=', '^=', '<<=', '>>=')
+
+    def assign_op(self, allowed=None):
+        """an assignment operator at the cursor (consumed) or None; `<<=` / `>>=` arrive as `<` `<=` / `>` `>=`"""
+        nt = self.peek()
+        if nt.kind != 'op':
+            return None
+        op = None
+        if nt.text in ('=', '+=', '&=', '|=', '-=', '*=', '/=', '%=', '^='):
+            op = nt.text
+            self.next()
+        elif (self.at('<', '<=') or self.at('>', '>=')) and self.peek(1).kind == 'op':
+            op = nt.text * 2 + '='
+            self.next()
+            self.next()
+        if op is not None and op not in (allowed or self.ASSIGN_OPS):
+            bad('compound assignment `%s`' % op, nt.line)
+        return op
 
     def if_stmt(self):
         t = self.expect('if')
@@ -551,7 +642,7 @@ LOOK_METHODS = {'is_start': False, 'is_end': False, 'is_start_lf': False, 'is_en
                 'is_word_unicode_negate': True}
 
 # type tags -> Lean types
-LEAN_TYPES = {'usize': 'Nat', 'bool': 'Bool', 'u8': 'Nat', 'str': 'Bytes', 'bytes': 'Bytes', 'OptNonMax': 'Option Nat',
+LEAN_TYPES = {'usize': 'Nat', 'bool': 'Bool', 'u8': 'Nat', 'u16': 'Nat', 'u32': 'Nat', 'u64': 'Nat', 'str': 'Bytes', 'bytes': 'Bytes', 'OptNonMax': 'Option Nat',
               'NonMax': 'Nat', 'VecOptNonMax': 'List (Option Nat)', 'Input': 'RaInput', 'Regex': 'RaRegex', 'HalfMatch': 'Nat',
               'OptHalfMatch': 'Option Nat', 'OptPid': 'Option Nat', 'OptUsize': 'Option Nat', 'Assertion': 'Assertion'}
 OPTION_ELEM = {'OptNonMax': 'NonMax', 'OptHalfMatch': 'HalfMatch', 'OptUsize': 'usize', 'OptPid': 'usize'}
@@ -582,6 +673,16 @@ PROG_INDEX_SITE = 'prog index'
 # function never runs out of it (`C05_vm_loop_fuel`).
 LOOP_FUEL = {'FailNegativeLookAround': 'state.stack.length + 1'}
 RESERVED = {'bc', 'prog', 'insn', 'o', 'r', 'fuel', 'n', 'self'}
+
+
+def vid(name):
+    """the Lean identifier of a Rust variable: a name that the generated code uses for itself (RESERVED, `t1`, `t2`, …) is
+    renamed apart (`n` -> `n_rs`), so that a local may be called anything"""
+    return lean_id(name + '_rs') if (name in RESERVED or re.match(r't[0-9]+$', name)) else lean_id(name)
+
+
+def clash_rs(name):
+    return name.endswith('_rs') and (name[:-3] in RESERVED or re.match(r't[0-9]+$', name[:-3]) is not None)
 
 # the two helper functions of vm.rs that the prelude defines by hand: their text is compared token by token
 HELPER_TEXTS = {
@@ -652,19 +753,38 @@ class Translator:
             bad('%s has type %s, expected %s' % (what, got, ' or '.join(wants)), line)
 
     # ---- expressions -> (pre, lean text, type tag)
-    def ex(self, e, c):
+    def ex(self, e, c, expect=None):
+        """`expect`: the integer type an unsuffixed literal takes from its context (rs2lean_ints); None: `usize`"""
         k, line = e[0], e[-1]
         if k == 'int':
-            return [], str(e[1]), 'usize'
+            t = expect if ints.is_int(expect) else 'usize'
+            if not ints.fits(e[1], t):
+                bad('the literal %d does not fit the type %s' % (e[1], t), line)
+            return [], str(e[1]), t
+        if k == 'tint':
+            if not ints.is_int(e[2]) or not ints.fits(e[1], e[2]):
+                bad('integer literal of type %s' % e[2], line)
+            return [], str(e[1]), e[2]
+        if k == 'cast':
+            pre, s, t = self.ex(e[1], c)
+            if e[2] in ints.SIGNED:
+                bad('cast to the signed / 128-bit type %s (not in the subset)' % e[2], line)
+            if not (ints.is_int(t) and ints.is_int(e[2])):
+                bad('cast from %s to %s' % (t, e[2]), line)
+            return pre, ints.cast(s, t, e[2]), e[2]
+        if k == 'closure':
+            bad('closure outside `opt.map_or(d, |x| e)`', line)
         if k == 'byte':
             return [], str(e[1]), 'u8'
         if k == 'bool':
             return [], ('true' if e[1] else 'false'), 'bool'
         if k == 'paren':
-            return self.ex(e[1], c)
+            return self.ex(e[1], c, expect)
         if k == 'path':
             if e[1] == ['usize', 'MAX']:
                 return [], 'UNSET', 'usize'
+            if len(e[1]) == 2 and e[1][1] == 'MAX' and ints.is_int(e[1][0]):
+                return [], str(ints.modulus(e[1][0]) - 1), e[1][0]
             if len(e[1]) != 1:
                 bad('path `%s` as a value' % '::'.join(e[1]), line)
             n = e[1][0]
@@ -672,11 +792,13 @@ class Translator:
                 return [], 'none', 'NoneLit'
             if n not in c.types:
                 bad('unknown variable `%s`' % n, line)
-            if c.types[n] in ('State', 'LookMatcher', 'u32', 'Options', 'Prog'):
+            if c.types[n] in ('State', 'LookMatcher', 'Flags', 'Options', 'Prog'):
                 bad('`%s` used as a value' % n, line)
-            return [], lean_id(n), c.types[n]
+            return [], vid(n), c.types[n]
         if k == 'field':
             if is_path(e[1], 'options') and e[2] == 'backtrack_limit' and c.types.get('options') == 'Options':
+                if self.mode != 'fail':
+                    bad('`options.backtrack_limit` outside the fail handler (the arms do not receive the options)', line)
                 return [], 'o.backtrackLimit', 'usize'
             bad('field access `.%s`' % e[2], line)
         if k in ('ref', 'refmut'):
@@ -685,11 +807,13 @@ class Translator:
                 return pre, s, t
             bad('`&%s` of a value of type %s here' % ('mut ' if k == 'refmut' else '', t), line)
         if k == 'not':
-            pre, s, t = self.ex(e[1], c)
+            pre, s, t = self.ex(e[1], c, expect)
+            if ints.is_int(t):
+                return pre, ints.bitnot(s, t), t
             self.want(t, 'bool', 'operand of `!`', line)
             return pre, '(!%s)' % s, 'bool'
         if k == 'bin':
-            return self.ex_bin(e, c)
+            return self.ex_bin(e, c, expect)
         if k == 'index':
             return self.ex_index(e, c)
         if k == 'mcall':
@@ -704,18 +828,38 @@ class Translator:
             bad('`match` as a value outside an `if` condition', line)
         bad('expression form %s' % k, line)
 
-    def ex_bin(self, e, c):
+    def ex_pair(self, a, b, c, expect=None):
+        """both operands of a binary operator whose operands have one type: an unsuffixed literal takes the type of the
+        other side (else of the context)"""
+        if ints.literalish(a) and not ints.literalish(b):
+            rb = self.ex(b, c, expect)
+            return self.ex(a, c, rb[2] if ints.is_int(rb[2]) else expect), rb
+        ra_ = self.ex(a, c, expect)
+        return ra_, self.ex(b, c, ra_[2] if ints.is_int(ra_[2]) and ints.literalish(b) else expect)
+
+    def ex_bin(self, e, c, expect=None):
         _, op, a, b, line = e
         # option_flags & OPTION_X   /   (that) != 0
         if op == '&' and is_path(a, 'option_flags') and b[0] == 'path' and len(b[1]) == 1 and b[1][0].startswith('OPTION_'):
             if b[1][0] != 'OPTION_SKIPPED_EMPTY_MATCH' or not self.have_skip_flag:
                 bad('option flag `%s` (only OPTION_SKIPPED_EMPTY_MATCH is modelled)' % b[1][0], line)
             return [], 'OPTION_SKIPPED_EMPTY_MATCH', 'flagtest'
-        (pa, l, tl), (pb, r, tr) = self.ex(a, c), self.ex(b, c)
+        if op in ('<<', '>>'):
+            if ints.literalish(a) and not ints.is_int(expect):
+                bad('`%s` on an integer literal whose type is not evident here' % op, line)
+            (pa, l, tl), (pb, r, tr) = self.ex(a, c, expect), self.ex(b, c)
+            if not (ints.is_int(tl) and ints.is_int(tr)):
+                bad('`%s` between %s and %s' % (op, tl, tr), line)
+            return pa + pb, ints.shift(op, l, r, tl), tl
+        (pa, l, tl), (pb, r, tr) = self.ex_pair(a, b, c, expect if op in ('+', '*', '-', '|', '&', '^') else None)
         if tl == 'flagtest':
             if op not in ('!=', '==') or r != '0' or b[0] != 'int':
                 bad('an option-flag test must be `option_flags & FLAG != 0` or `== 0`', line)
             return [], '(optionSkippedEmptyMatch bc)' if op == '!=' else '(!optionSkippedEmptyMatch bc)', 'bool'
+        if op in ('|', '&', '^') and ints.is_int(tl):
+            if tl != tr:
+                bad('`%s` between %s and %s' % (op, tl, tr), line)
+            return pa + pb, ints.bitop(op, l, r), tl
         if op in ('||', '&&', '|', '&'):
             self.want(tl, 'bool', 'left operand of `%s`' % op, line)
             self.want(tr, 'bool', 'right operand of `%s`' % op, line)
@@ -723,22 +867,20 @@ class Translator:
                 bad('the right operand of `%s` can panic: allowed only directly in an `if` condition' % op, line)
             return pa + pb, '(%s %s %s)' % (l, '||' if op in ('||', '|') else '&&', r), 'bool'
         if op in ('==', '!='):
-            if tl != tr or tl not in ('usize', 'bool', 'u8'):
+            if tl != tr or not (tl == 'bool' or ints.is_int(tl)):
                 bad('`%s` between %s and %s' % (op, tl, tr), line)
             return pa + pb, '(%s %s %s)' % (l, op, r), 'bool'
         if op in ('<', '<=', '>', '>='):
-            if tl != tr or tl not in ('usize', 'u8'):
+            if tl != tr or not ints.is_int(tl):
                 bad('`%s` between %s and %s' % (op, tl, tr), line)
             return pa + pb, '(decide (%s %s %s))' % (l, {'<': '<', '<=': '≤', '>': '>', '>=': '≥'}[op], r), 'bool'
-        if op in ('+', '*'):
-            self.want(tl, 'usize', 'left operand of `%s`' % op, line)
-            self.want(tr, 'usize', 'right operand of `%s`' % op, line)
-            return pa + pb, '(%s %s %s)' % (l, op, r), 'usize'
-        if op == '-':
-            self.want(tl, 'usize', 'left operand of `-`', line)
-            self.want(tr, 'usize', 'right operand of `-`', line)
-            h, t = self.hoist('checkedSub %s %s' % (l, r), c, 'sub')
-            return pa + pb + [h], t, 'usize'
+        if op in ('+', '*', '-'):
+            if tl != tr or not ints.is_int(tl):
+                bad('`%s` between %s and %s' % (op, tl, tr), line)
+            if op == '-':
+                h, t = self.hoist('checkedSub %s %s' % (l, r), c, 'sub')
+                return pa + pb + [h], t, tl
+            return pa + pb, ints.arith(op, l, r, tl), tl
         bad('operator `%s`' % op, line)
 
     def ex_index(self, e, c):
@@ -823,6 +965,33 @@ class Translator:
             h, t = self.hoist(call, c, 'look')
             return pre + [h], t, 'bool'
         pre, r, t = self.ex(recv, c)
+        if ints.is_int(t) and m in ints.METHODS:
+            if len(args) != 1:
+                bad('`.%s(..)` takes one argument' % m, line)
+            kind = ints.METHODS[m]
+            pa, a, ta = self.ex(args[0], c, t if kind[1] == 'same' else kind[1])
+            self.want(ta, t if kind[1] == 'same' else kind[1], 'argument of `.%s`' % m, line)
+            if kind[2] == 'opt':
+                if t != 'usize':
+                    bad('`.%s(..)` on a value of type %s (an Option of it has no counterpart here)' % (m, t), line)
+                return pre + pa, ints.method(m, r, a, t), 'OptUsize'
+            return pre + pa, ints.method(m, r, a, t), t
+        if t in OPTION_ELEM and m == 'unwrap_or' and len(args) == 1 and OPTION_ELEM[t] in LEAN_TYPES:
+            pa, a, ta = self.ex(args[0], c, OPTION_ELEM[t])
+            self.want(ta, OPTION_ELEM[t], 'argument of `.unwrap_or`', line)
+            return pre + pa, '(Option.getD %s %s)' % (r, a), ta
+        if t in OPTION_ELEM and m == 'map_or' and len(args) == 2 and args[1][0] == 'closure':
+            # `o.map_or(d, |x| e)` = `match o { None => d, Some(x) => e }`; `d` is evaluated first (it is an argument)
+            pd, d, td = self.ex(args[0], c)
+            _, x, body, cline = args[1]
+            cb = self.bind(c, x, OPTION_ELEM[t], False, cline)
+            pb, bt, tb = self.ex(body, cb, td)
+            if pb:
+                bad('the closure of `.map_or` can panic', cline)
+            self.want(tb, td, 'value of the closure of `.map_or`', cline)
+            if td not in LEAN_TYPES:
+                bad('`.map_or` with a value of type %s' % td, line)
+            return pre + pd, '(match %s with | none => %s | some %s => %s)' % (r, d, vid(x), bt), td
         if t == 'ResultBool' and m == 'unwrap' and not args:
             h, tv = self.hoist(r, c, 'look')
             return pre + [h], tv, 'bool'
@@ -864,8 +1033,8 @@ class Translator:
                 bad('`&mut %s`: not a mutable Vec<Option<NonMaxUsize>> of this scope' % v, line)
             p2, a = self.args_of(args[:1], c, ['Input'], 'search_slots', line)
             tv = self.fresh()
-            h = ('search_slots bc state %s %s %s' % (r, a[0], lean_id(v)), 'none', self.panic(c, 'search'),
-                 'some (%s, %s)' % (tv, lean_id(v)))
+            h = ('search_slots bc state %s %s %s' % (r, a[0], vid(v)), 'none', self.panic(c, 'search'),
+                 'some (%s, %s)' % (tv, vid(v)))
             return pre + p2 + [h], tv, 'OptPid'
         bad('method call `.%s(…)` on a value of type %s' % (m, t), line)
 
@@ -907,7 +1076,7 @@ class Translator:
         _, scrut, arms, line = e
         if not (scrut[0] == 'path' and len(scrut[1]) == 1 and c.types.get(scrut[1][0]) == 'Assertion'):
             bad('`match` as a condition on something other than a variable of type Assertion', line)
-        seen, out = set(), [ind + 'match %s with' % lean_id(scrut[1][0])]
+        seen, out = set(), [ind + 'match %s with' % vid(scrut[1][0])]
         for pats, body, aline in arms:
             for pat in pats:
                 key = self.assertion_key(pat)
@@ -938,11 +1107,13 @@ class Translator:
         return (v, items['crlf'][1])
 
     # ---- statements, continuation-passing: `k(c, ind)` yields the lines of what follows
-    def bind(self, c, name, tag, mut, line):
-        if name in c.types or name in RESERVED or name in self.names or re.match(r't[0-9]+$', name):
-            bad('`let %s` shadows a name that is in scope (shadowing is not in the subset)' % name, line)
+    def bind(self, c, name, tag, mut, line, shadow=False):
+        if (name in c.types and not (shadow and c.types[name] in LEAN_TYPES and name not in c.captured)) or clash_rs(name) \
+                or name in self.names:
+            bad('`let %s` shadows a name of an enclosing scope / a parameter (only an earlier `let` of the same block may be shadowed)' % name, line)
         c2 = c.copy()
         c2.types[name] = tag
+        c2.mutable.discard(name)
         if mut:
             c2.mutable.add(name)
         return c2
@@ -969,6 +1140,7 @@ class Translator:
     def block(self, stmts, c, ind, k):
         if not stmts:
             return k(c, ind)
+        ints.mark_shadow_lets(stmts, self)
         s, rest = stmts[0], stmts[1:]
         kind, line = s[0], s[-1]
         cont = lambda c2, ind2: self.block(rest, c2, ind2, k)
@@ -985,23 +1157,25 @@ class Translator:
             sc = self.state_call(e, c)
             if sc and sc[2] == 'stack_pop':
                 pre, scrut, op = sc
-                c2 = self.bind(c, name, 'usize', mut, line)
-                out, i2 = self.emit_pre(pre + [(scrut, 'none', self.panic(c, op), 'some (state, %s)' % lean_id(name))], ind)
+                c2 = self.bind(c, name, 'usize', mut, line, ints.shadow_ok(self, s))
+                out, i2 = self.emit_pre(pre + [(scrut, 'none', self.panic(c, op), 'some (state, %s)' % vid(name))], ind)
                 return out + cont(c2, i2)
             if sc:
                 bad('`let %s = state.%s(..)`' % (name, sc[2]), line)
-            pre, txt, t = self.ex(e, c)
+            if ty is not None and not (ints.is_int(ty) or ty == 'bool'):
+                bad('`let` with a type annotation other than an integer type / bool', line)
+            pre, txt, t = self.ex(e, c, ty)
             if t not in LEAN_TYPES:
                 bad('`let %s` of a value of type %s' % (name, t), line)
             if ty is not None:
-                bad('`let` with a type annotation', line)
-            c2 = self.bind(c, name, t, mut, line)
+                self.want(t, ty, 'initialiser of `let %s: %s`' % (name, ty), line)
+            c2 = self.bind(c, name, t, mut, line, ints.shadow_ok(self, s))
             if pre and pre[-1][3] == 'some ' + txt and re.match(r't[0-9]+$', txt):
-                pre = pre[:-1] + [pre[-1][:3] + ('some ' + lean_id(name),)]      # bind the value directly
+                pre = pre[:-1] + [pre[-1][:3] + ('some ' + vid(name),)]      # bind the value directly
                 out, i2 = self.emit_pre(pre, ind)
                 return out + cont(c2, i2)
             out, i2 = self.emit_pre(pre, ind)
-            return out + [i2 + 'let %s : %s := %s' % (lean_id(name), LEAN_TYPES[t], txt)] + cont(c2, i2)
+            return out + [i2 + 'let %s : %s := %s' % (vid(name), LEAN_TYPES[t], txt)] + cont(c2, i2)
         if kind == 'lettuple':
             _, names, e, _ = s
             sc = self.state_call(e, c)
@@ -1013,7 +1187,7 @@ class Translator:
                 if n:
                     c2 = self.bind(c2, n, 'usize', False, line)
             out, i2 = self.emit_pre(pre + [(scrut, 'none', self.panic(c, op),
-                                            'some (state, %s, %s)' % tuple(lean_id(n) if n else '_' for n in names))], ind)
+                                            'some (state, %s, %s)' % tuple(vid(n) if n else '_' for n in names))], ind)
             return out + cont(c2, i2)
         if kind == 'assign':
             _, target, op, e, _ = s
@@ -1024,13 +1198,28 @@ class Translator:
             ttype = c.types[tname]
             if self.state_call(e, c):
                 bad('`%s = state.%s(..)`' % (tname, e[2]), line)
-            pre, txt, t = self.ex(e, c)
-            self.want(t, ttype, 'right-hand side of `%s %s`' % (tname, op), line)
-            if op == '+=':
-                self.want(ttype, 'usize', 'target of `+=`', line)
-                txt = '(%s + %s)' % (lean_id(tname), txt)
+            if op in ('<<=', '>>='):
+                pre, txt, t = self.ex(e, c)
+                if not (ints.is_int(ttype) and ints.is_int(t)):
+                    bad('`%s %s` between %s and %s' % (tname, op, ttype, t), line)
+                txt = ints.shift(op[:2], vid(tname), txt, ttype)
+            else:
+                pre, txt, t = self.ex(e, c, ttype)
+                self.want(t, ttype, 'right-hand side of `%s %s`' % (tname, op), line)
+            if op in ('+=', '*=', '-=', '|=', '&=', '^='):
+                if not (ints.is_int(ttype) or (ttype == 'bool' and op in ('|=', '&='))):
+                    bad('`%s` on a variable of type %s' % (op, ttype), line)
+                if ttype == 'bool':
+                    txt = '(%s %s %s)' % (vid(tname), '||' if op == '|=' else '&&', txt)
+                elif op == '-=':
+                    h, txt = self.hoist('checkedSub %s %s' % (vid(tname), txt), c, 'sub')
+                    pre = pre + [h]
+                elif op in ('+=', '*='):
+                    txt = ints.arith(op[0], vid(tname), txt, ttype)
+                else:
+                    txt = ints.bitop(op[0], vid(tname), txt)
             out, i2 = self.emit_pre(pre, ind)
-            return out + [i2 + 'let %s : %s := %s' % (lean_id(tname), LEAN_TYPES[ttype], txt)] + cont(c, i2)
+            return out + [i2 + 'let %s : %s := %s' % (vid(tname), LEAN_TYPES[ttype], txt)] + cont(c, i2)
         if kind == 'expr':
             e = s[1]
             if e[0] == 'try':
@@ -1059,7 +1248,7 @@ class Translator:
                 pre, n, t = self.ex(e[3][0], c)
                 self.want(t, 'usize', 'first argument of resize', line)
                 out, i2 = self.emit_pre(pre, ind)
-                return out + [i2 + 'let %s : List (Option Nat) := vecResize %s %s none' % (lean_id(v), lean_id(v), n)] + cont(c, i2)
+                return out + [i2 + 'let %s : List (Option Nat) := vecResize %s %s none' % (vid(v), vid(v), n)] + cont(c, i2)
             bad('expression statement that is not a `state` method call or `inner_slots.resize(n, None)`', line)
         if kind == 'if':
             _, cnd, th, el, _ = s
@@ -1086,7 +1275,7 @@ class Translator:
                         bad('`Some(..)` arm after the option is exhausted', aline)
                     got.append('some')
                     cb = self.bind(c, p[1], OPTION_ELEM[t], False, aline) if p[1] else c.copy()
-                    out.append(i2 + '| some %s =>' % (lean_id(p[1]) if p[1] else '_'))
+                    out.append(i2 + '| some %s =>' % (vid(p[1]) if p[1] else '_'))
                     out += self.block(body, cb, i2 + '  ', after_branch)
                 elif p[0] in ('none', 'wild'):
                     if 'none' in got:
@@ -1196,8 +1385,8 @@ class Translator:
         cl = c.copy()
         cl.loop = kind
         cl.captured = set(cap)
-        params = ''.join(' (%s : %s)' % (lean_id(v), LEAN_TYPES[c.types[v]]) for v in cap)
-        call = '%s bc s pos%s' % (name, ''.join(' ' + lean_id(v) for v in cap))
+        params = ''.join(' (%s : %s)' % (vid(v), LEAN_TYPES[c.types[v]]) for v in cap)
+        call = '%s bc s pos%s' % (name, ''.join(' ' + vid(v) for v in cap))
         ind = '    '
         if kind == 'for':
             iv = var if var != '_' else 'i_'
@@ -1261,22 +1450,55 @@ class Translator:
             bad('fn run: expected `%s`' % what, s[-1])
 
     def skeleton(self, body, fline):
-        if len(body) != 7:
-            bad('fn run: expected six `let`s and the outer `loop` (found %d statements)' % len(body), fline)
+        """`run`: the `let`s before the outer loop (the six the machine is made of, in any order - they are independent - and
+        any number of further immutable `let`s of pure integer / boolean values over the parameters), then the outer `loop`"""
+        if not body or body[-1][0] != 'loop':
+            bad('fn run: the last statement is not the outer `loop`', body[-1][-1] if body else fline)
         call = lambda path, args: lambda e, ty: e[0] == 'call' and e[1] == path and len(e[2]) == len(args) and all(f(a) for f, a in zip(args, e[2]))
         isp = lambda *n: lambda a: is_path(a, *n)
-        self.expect_let(body[0], 'state', True, lambda e, ty: ty is None and call(['State', 'new'], [
-            lambda a: a[0] == 'field' and is_path(a[1], 'prog') and a[2] == 'n_saves', isp('MAX_STACK'), isp('option_flags')])(e, ty),
-            'let mut state = State::new(prog.n_saves, MAX_STACK, option_flags);')
-        self.expect_let(body[1], 'inner_slots', True, lambda e, ty: ty == 'Vec<Option<NonMaxUsize>>' and call(['Vec', 'new'], [])(e, ty),
-                        'let mut inner_slots: Vec<Option<NonMaxUsize>> = Vec::new();')
-        self.expect_let(body[2], 'look_matcher', False, lambda e, ty: ty is None and call(['LookMatcher', 'new'], [])(e, ty),
-                        'let look_matcher = LookMatcher::new();')
-        for st, name, what in ((body[3], 'backtrack_count', '0'), (body[4], 'pc', '0')):
-            self.expect_let(st, name, True, lambda e, ty: ty is None and e[0] == 'int', 'let mut %s = <integer>;' % name)
-        self.init_backtrack_count, self.init_pc = body[3][4][1], body[4][4][1]
-        self.expect_let(body[5], 'ix', True, lambda e, ty: ty is None and is_path(e, 'pos'), 'let mut ix = pos;')
-        outer = body[6]
+        intlit = lambda e, ty: (e[0] == 'int' and (ty is None or ints.is_int(ty)) and ints.fits(e[1], ty or 'usize')) or \
+            (e[0] == 'tint' and ints.is_int(e[2]) and ints.fits(e[1], e[2]) and ty in (None, e[2]))
+        required = {
+            'state': (True, lambda e, ty: ty is None and call(['State', 'new'], [
+                lambda a: a[0] == 'field' and is_path(a[1], 'prog') and a[2] == 'n_saves', isp('MAX_STACK'), isp('option_flags')])(e, ty),
+                'let mut state = State::new(prog.n_saves, MAX_STACK, option_flags);'),
+            'inner_slots': (True, lambda e, ty: ty == 'Vec<Option<NonMaxUsize>>' and call(['Vec', 'new'], [])(e, ty),
+                            'let mut inner_slots: Vec<Option<NonMaxUsize>> = Vec::new();'),
+            'look_matcher': (False, lambda e, ty: ty is None and call(['LookMatcher', 'new'], [])(e, ty), 'let look_matcher = LookMatcher::new();'),
+            'backtrack_count': (True, intlit, 'let mut backtrack_count[: <integer type>] = <integer>;'),
+            'pc': (True, lambda e, ty: ty in (None, 'usize') and e[0] == 'int', 'let mut pc = <integer>;'),
+            'ix': (True, lambda e, ty: ty in (None, 'usize') and is_path(e, 'pos'), 'let mut ix = pos;'),
+        }
+        found, extras = {}, []
+        for st in body[:-1]:
+            if st[0] != 'let':
+                bad('fn run: a statement before the outer loop that is not a plain `let`', st[-1])
+            if st[1] in required:
+                if st[1] in found:
+                    bad('fn run: `let %s` twice' % st[1], st[-1])
+                self.expect_let(st, st[1], required[st[1]][0], required[st[1]][1], required[st[1]][2])
+                found[st[1]] = st
+            else:
+                extras.append(st)
+        for name in required:
+            if name not in found:
+                bad('fn run: expected `%s` before the outer loop' % required[name][2], fline)
+        bc_let = found['backtrack_count']
+        self.init_backtrack_count, self.init_pc = bc_let[4][1], found['pc'][4][1]
+        counter_type = bc_let[3] or (bc_let[4][2] if bc_let[4][0] == 'tint' else 'usize')
+        base = Ctx()
+        base.types = {'s': 'str', 'pos': 'usize', 'option_flags': 'Flags', 'options': 'Options'}
+        # further immutable `let`s: values of the parameters only (they are re-computed where they are used)
+        self.extras = []
+        for st in extras:
+            _, name, mut, ty, e, line = st
+            if mut:
+                bad('fn run: a further `let mut %s` before the outer loop (the machine has exactly pc, ix, state, inner_slots, '
+                    'backtrack_count)' % name, line)
+            self.extras.append((name, ty, e, line, set(self.free_names(e, []))))
+        base.types.update({'pc': 'usize', 'ix': 'usize', 'state': 'State', 'look_matcher': 'LookMatcher', 'prog': 'Prog',
+                           'inner_slots': 'VecOptNonMax', 'backtrack_count': counter_type})
+        outer = body[-1]
         if outer[0] != 'loop' or outer[1] is not None:
             bad('fn run: the last statement is not the outer `loop`', outer[-1])
         ob = outer[2]
@@ -1289,10 +1511,6 @@ class Translator:
         sc = m[1]
         if not (sc[0] == 'index' and sc[1][0] == 'field' and is_path(sc[1][1], 'prog') and sc[1][2] == 'body' and is_path(sc[2], 'pc')):
             bad('the match scrutinee is not `prog.body[pc]`', m[-1])
-        base = Ctx()
-        base.types = {'s': 'str', 'pos': 'usize', 'pc': 'usize', 'ix': 'usize', 'state': 'State', 'look_matcher': 'LookMatcher',
-                      'option_flags': 'u32', 'options': 'Options', 'prog': 'Prog', 'inner_slots': 'VecOptNonMax',
-                      'backtrack_count': 'usize'}
         base.mutable = {'pc', 'ix', 'inner_slots'}
         self.arms(m[2], inner[1:], base, m[-1])
         # the fail handler
@@ -1303,9 +1521,41 @@ class Translator:
         c.mutable = {'pc', 'ix', 'backtrack_count'}
         del c.types['inner_slots']
         lines = ['def genOnFail (o : VMOpts) (pc ix : Nat) (state : State) (backtrack_count : Nat) : FailResult :=']
+        c, pl = self.with_extras(c, ob[1:])
+        lines += ['  ' + l for l in pl]
         lines += self.block(ob[1:], c, '  ', lambda c2, i2: [i2 + '.resume pc ix state backtrack_count'])
         self.defs.append(("what follows `break 'fail` in the outer loop", lines))
         self.mode = 'step'
+
+    def with_extras(self, c, code):
+        """the further `let`s of `run` that `code` uses (transitively): -> (context with them, their Lean `let` lines)"""
+        used, need = set(self.free_names(code, [])), []
+        for name, ty, e, line, fv in reversed(self.extras):
+            if name in used:
+                need.append(name)
+                used |= fv
+        if not need:
+            return c, []
+        cx = Ctx()
+        cx.arm = c.arm
+        cx.types = {k: v for k, v in c.types.items() if k in ('s', 'pos', 'option_flags', 'options')}
+        lines = []
+        for name, ty, e, line, fv in self.extras:
+            if name not in need:
+                continue
+            if ty is not None and not (ints.is_int(ty) or ty == 'bool'):
+                bad('`let %s: %s` before the outer loop' % (name, ty), line)
+            pre, txt, t = self.ex(e, cx, ty)
+            if pre:
+                bad('`let %s` before the outer loop: its value can panic' % name, line)
+            if ty is not None:
+                self.want(t, ty, 'initialiser of `let %s: %s`' % (name, ty), line)
+            if not (ints.is_int(t) or t == 'bool'):
+                bad('`let %s` before the outer loop of a value of type %s' % (name, t), line)
+            cx = self.bind(cx, name, t, False, line)
+            c = self.bind(c, name, t, False, line)
+            lines.append('let %s : %s := %s' % (vid(name), LEAN_TYPES[t], txt))
+        return c, lines
 
     def arms(self, arms, after, base, mline):
         table = {v: (shape, fs, tmpl) for v, shape, fs, tmpl in VARIANTS}
@@ -1358,7 +1608,7 @@ class Translator:
                         pat_args[key] = '_'
                         continue
                     b = binds[key][1]
-                    if b in c.types or b in RESERVED:
+                    if b in c.types or clash_rs(b):
                         bad('pattern binding `%s` shadows a name in scope' % b, pline)
                     if ftypes[key] not in FIELD_TAGS:
                         bad('field type `%s`' % ftypes[key], pline)
@@ -1368,16 +1618,16 @@ class Translator:
                         params.append('(%s_m : %s)' % (b, FIELD_ADAPTORS[(v, key)][0]))
                         adapt.append((b, key))
                     else:
-                        pat_args[key] = lean_id(b)
-                        params.append('(%s : %s)' % (lean_id(b), LEAN_TYPES[c.types[b]]))
+                        pat_args[key] = vid(b)
+                        params.append('(%s : %s)' % (vid(b), LEAN_TYPES[c.types[b]]))
                     pargs.append(pat_args[key])
                 for b, key in adapt:
-                    others = {k2: lean_id(binds[k2][1]) for k2 in binds if k2 != key}
+                    others = {k2: vid(binds[k2][1]) for k2 in binds if k2 != key}
                     try:
                         val = FIELD_ADAPTORS[(v, key)][1].format(m=b + '_m', **others)
                     except KeyError as ke:
                         bad('`Insn::%s`: the adaptor of field `%s` needs field %s, which the pattern does not bind' % (v, key, ke), pline)
-                    c.prelets = getattr(c, 'prelets', []) + ['let %s : %s := %s' % (lean_id(b), LEAN_TYPES[c.types[b]], val)]
+                    c.prelets = getattr(c, 'prelets', []) + ['let %s : %s := %s' % (vid(b), LEAN_TYPES[c.types[b]], val)]
                 lean_pat = tmpl.format(*[pat_args.get(str(i), '_') for i in range(len(keys))],
                                        **{k2: v2 for k2, v2 in pat_args.items() if not k2.isdigit()})
                 if first is None:
@@ -1390,6 +1640,8 @@ class Translator:
                     lines = ['def %s (bc : BCtx) (s : Bytes) (pos : Nat) (pc ix : Nat) (state : State)%s%s : StepResult :=' % (
                         name, sl, ''.join(' ' + x for x in params))]
                     lines += ['  ' + l for l in getattr(c, 'prelets', [])]
+                    c, pl = self.with_extras(c, [body, after])
+                    lines += ['  ' + l for l in pl]
                     if not uses_slots:
                         del c.types['inner_slots']
                     ndefs = len(self.defs)
@@ -1484,8 +1736,8 @@ def main(argv):
     except Unsupported as e:
         where = '%s:%s: ' % (src, e.line) if e.line else '%s: ' % src
         failure = 'rs2lean_vm.py: NOT TRANSLATED - %s%s' % (where, e.msg)
-    except (OSError, IndexError, StopIteration) as e:
-        failure = 'rs2lean_vm.py: NOT TRANSLATED - %s: %r' % (src, e)
+    except Exception as e:                  # whatever goes wrong inside the translator is a refusal: never a stale file
+        failure = 'rs2lean_vm.py: NOT TRANSLATED - %s: %s: %r' % (src, type(e).__name__, e)
     if failure is not None:
         print(failure)
         if not stub_on_failure or out == '-':
